@@ -258,6 +258,7 @@ class Exec:
         self.loop_rounds = {}
         self.point_of = {}        # id(ast node) -> point index
         self.jobs = []
+        self.derived = {}         # locals that are pure functions of the parameters: aliases, never stored
 
     def gensym(self, base):
         self.fresh += 1
@@ -334,6 +335,10 @@ class Exec:
             [f"/-- `{f.cls}.{f.name}`: from a suspension point, resumed by send / throw, to the next suspension or exit -/",
              f"def {f.lean}Resume {ptxt} (l : {susp}) (r : Resume) (s : {f.state_type()}) : {rty} :="]
             + render(match("s", [(st, match("l", arms))]), 1)))
+        # canonical names of the suspension points: by what is yielded / awaited there, not by textual order
+        order = sorted(f.points, key=lambda p: (p["key"], p["seq"]))
+        for i, p in enumerate(order):
+            f.defs = [d.replace(f"p{p['id']}", f"p{i}") for d in f.defs]
 
     def bad(self, why):
         raise Unsupported(f"{self.f.cls}.{self.f.name}: {why}")
@@ -368,6 +373,13 @@ class Exec:
                 self.bad("multiple assignment targets")
             if s.value is None:
                 return k.next(loc)
+            if isinstance(tgt, ast.Name) and self.param_only(s.value, loc):
+                e = self.pure(s.value, loc)
+                if e[1] in ("bool", "val", "int"):
+                    loc = dict(loc)
+                    loc[tgt.id] = e
+                    self.derived[tgt.id] = e
+                    return k.next(loc)
             return self.effect(s.value, loc, k, lambda e, loc2: self.assign(tgt, e, loc2, k))
         if isinstance(s, ast.If):
             return self.cond(s.test, loc,
@@ -406,6 +418,22 @@ class Exec:
         if isinstance(s, ast.Try):
             return self.try_(s, loc, k)
         self.bad(f"statement {type(s).__name__}")
+
+    def param_only(self, e, loc):
+        """the expression reads nothing but parameters (and locals derived from them)"""
+        params = set()
+        for role, names in self.f.roles:
+            params.update(names)
+        for n in ast.walk(e):
+            if isinstance(n, (ast.Call, ast.Yield, ast.Await, ast.Attribute)):
+                if isinstance(n, ast.Call) and isinstance(n.func, ast.Name) and n.func.id == "cast":
+                    continue
+                return False
+            if isinstance(n, ast.Name) and isinstance(n.ctx, ast.Load):
+                if n.id not in params and n.id not in self.derived and n.id not in ("None", "True", "False", "cast"):
+                    if not (n.id[0].isupper()):      # type names inside cast(...)
+                        return False
+        return True
 
     def assign(self, tgt, e, loc, k):
         if isinstance(tgt, ast.Name):
@@ -724,6 +752,9 @@ class Exec:
                     return let("evs", "evs ++ [HookEv.firstiter]", cont(("()", "unit"), loc))
                 if fval is not None and fval[1] == "finalizer" and len(e.args) == 1 and self.is_self(e.args[0]):
                     return let("evs", "evs ++ [HookEv.finalizer]", cont(("()", "unit"), loc))
+                if recv is None and fval is None and self.is_self(fn.value) and (f.cls, fn.attr) in self.tr.funcs \
+                        and (e.args or self.raises(self.tr.funcs[(f.cls, fn.attr)])):
+                    return self.inline(self.tr.funcs[(f.cls, fn.attr)], e, loc, k, cont)
                 if recv is None and fval is None:
                     # synchronous helper method of the same object
                     if isinstance(fn.value, ast.Name) and fn.value.id == "self" and not e.args:
@@ -736,6 +767,36 @@ class Exec:
                     and self.is_self(e.args[0]):
                 return let("evs", "evs ++ [HookEv.finalizer]", cont(("()", "unit"), loc))
         return cont(self.pure(e, loc), loc)
+
+    @staticmethod
+    def raises(node):
+        return any(isinstance(x, ast.Raise) for x in ast.walk(node))
+
+    def inline(self, node, call, loc, k, cont):
+        """a private synchronous helper of the same object, executed in place: its parameters are bound to
+        the (pure) arguments, `return` continues the caller, an exception goes to the caller's handlers"""
+        if isinstance(node, ast.AsyncFunctionDef) or any(isinstance(x, (ast.Yield, ast.Await)) for x in ast.walk(node)):
+            self.bad(f"call of coroutine {node.name} without await")
+        if call.keywords or node.args.defaults or node.args.kwonlyargs or node.args.vararg:
+            self.bad(f"helper {node.name}: only plain positional parameters")
+        names = [a.arg for a in node.args.args][1:]
+        if len(names) != len(call.args):
+            self.bad(f"helper {node.name}: wrong number of arguments")
+        if getattr(self, "_inlining", 0) > 3:
+            self.bad("helpers nested too deeply")
+        inner = {n: v for n, v in loc.items() if v[1] in ("coro", "monitor")}
+        for n, a in zip(names, call.args):
+            inner[n] = self.pure(a, loc)
+        body = list(node.body)
+        if body and isinstance(body[0], ast.Expr) and isinstance(body[0].value, ast.Constant):
+            body = body[1:]
+        kk = K(next=lambda l2: cont(("0", "val"), loc), ret=lambda e2, l2: cont(e2, loc),
+               raise_=lambda e2, l2: k.raise_(e2, loc), cur_exc=None)
+        self._inlining = getattr(self, "_inlining", 0) + 1
+        try:
+            return self.block(body, 0, inner, kk)
+        finally:
+            self._inlining -= 1
 
     @staticmethod
     def is_self(a):
@@ -766,12 +827,13 @@ class Exec:
                 continue
         return out
 
-    def new_point(self, node, loc, inner=None):
+    def new_point(self, node, loc, inner=None, key=None):
         f = self.f
         pid = len(f.points)
         params = {n for n, _ in f.lean_params()}
         fields = [(n, t) for n, t in self.live_fields(loc) if n not in params]
-        p = dict(id=pid, fields=fields + ([("inner", inner)] if inner else []), own=[n for n, _ in fields])
+        p = dict(id=f"T{pid}q", fields=fields + ([("inner", inner)] if inner else []), own=[n for n, _ in fields],
+                 key=key or "", seq=pid)
         f.points.append(p)
         self.point_of[id(node)] = p
         return p
@@ -788,6 +850,8 @@ class Exec:
         for n, v in loc.items():
             if v[1] in ("str", "coro", "hooks", "monitor") and n not in base:
                 base[n] = v
+        for n, v in self.derived.items():
+            base.setdefault(n, v)
         return base
 
     def susp_leaf(self, p, y, loc, inner=None):
@@ -812,7 +876,7 @@ class Exec:
             self.bad("only objects obtained from the coroutine (or an _OOBRequest) may be yielded")
         p = self.point_of.get(id(e))
         if p is None:
-            p = self.new_point(e, loc)
+            p = self.new_point(e, loc, key="yield " + ast.unparse(e.value))
             pat = f".p{p['id']}" + "".join(f" {n}" for n in p["own"])
 
             def job(p=p, pat=pat, loc=loc, k=k, cont=cont):
@@ -924,7 +988,7 @@ class Exec:
         p = self.point_of.get(key)
         first_time = p is None
         if first_time:
-            p = self.new_point(call, loc, inner=g.susp_type())
+            p = self.new_point(call, loc, inner=g.susp_type(), key=f"await {g.lean} {args}")
         l1, y1, v1, e1 = self.gensym("l"), self.gensym("y"), self.gensym("v"), self.gensym("e")
 
         def arms(loc_here, on_susp):
